@@ -20,6 +20,7 @@ Includes functions to generate commonly used matrices, apply certain gates, etc.
 """
 
 import string
+import warnings
 from functools import reduce
 
 from graphiq.backends.density_matrix import eigh
@@ -656,8 +657,8 @@ def fidelity(rho, sigma):
 
         rho_final = sqrtm_psd(rho_sigma)
         f = np.real(np.trace(rho_final)) ** 2
-        if not np.isclose(f, 1.0):
-            raise Warning(f"Fidelity should be between 0 and 1. Value if {f}.")
+        if (f > 1.0 and not np.isclose(f, 1.0)) or (f < 0.0 and not np.isclose(f, 0.0)):
+            warnings.warn(f"Fidelity should be between 0 and 1. Value is {f}.")
         f = np.maximum(np.minimum(f, 1.0), 0.0)
         return f
 
